@@ -33,6 +33,7 @@ func main() {
 	out := flag.String("out", "", "output directory")
 	replay := flag.String("replay", "", "replay file (unused: replays are self-describing)")
 	explore := flag.Bool("explore", false, "print the trace of one history and exit")
+	only := flag.String("only", "", "development: run only one group of classes (proxy)")
 	flag.Parse()
 	_ = replay
 
@@ -51,7 +52,13 @@ func main() {
 	t0 := time.Now()
 	d := newDriver(w, rng.New(*seed), *tier)
 	defer d.cleanup()
-	d.run()
+	if *only == "proxy" {
+		for _, sorted := range []bool{true, false} {
+			d.proxyScripts(0, sorted)
+		}
+	} else {
+		d.run()
+	}
 	w.Extra["harness_wall_s"] = time.Since(t0).Seconds()
 	if err := w.Close(); err != nil {
 		panic(err)
